@@ -388,21 +388,37 @@ def acquirableF (stale : Bool) (t : Tree) : Bool :=
 def acquirable (t : Tree) : Bool := acquirableF ExecFlags.emptyLockIsStale t
 
 -- rename.rs::detect_case_insensitive_fs -----------------------------------------------------------------
-def probe : M Unit := do
+/-- `TempDir::drop` / `TempDir::close` → `remove_dir_all`: the file (if it was created), then the directory; stops at
+    the first error.  Returns whether everything was removed. -/
+def removeProbe : M Bool := do
+  let t ← getTree
+  let r ← (if exists_ t pProbeFile then tryOp (.unlink pProbeFile) else pure none)
+  match r with
+  | some _ => pure false
+  | none => do
+    let r2 ← tryOp (.rmdir pProbe)
+    pure r2.isNone
+
+/-- `retry = false`: the cleanup of the probe directory is left to `TempDir::drop`, which ignores errors.
+    `retry = true`: it is closed explicitly and, if that fails, removed once more (then only a warning is printed). -/
+def probeF (retry : Bool) : M Unit := do
   let r ← tryOp (.mkdir pProbe)
   match r with
   | some _ => pure ()
   | none => do
     let r1 ← tryOp (.openw pProbeFile true false)
-    match r1 with
-    | some _ => ignoreErr (doOp (.rmdir pProbe))
-    | none => do
-      let _ ← tryOp (.write pProbeFile b!"test")
-      -- TempDir::drop → remove_dir_all, errors ignored
-      let r3 ← tryOp (.unlink pProbeFile)
-      match r3 with
-      | some _ => pure ()
-      | none => ignoreErr (doOp (.rmdir pProbe))
+    (match r1 with
+     | some _ => pure ()
+     | none => do
+       let _ ← tryOp (.write pProbeFile b!"test")
+       pure ())
+    let ok ← removeProbe
+    if retry && !ok then do
+      let _ ← removeProbe
+      pure ()
+    else pure ()
+
+def probe : M Unit := probeF ExecFlags.probeCleanupRetried
 
 -- apply.rs ---------------------------------------------------------------------------------------------
 structure Cfg where
@@ -411,7 +427,12 @@ structure Cfg where
   entry : UInt8            -- the byte that stands for the history entry this command appends
   force : Bool := false
 
-def logM (cfg : Cfg) : M Unit := if cfg.log.isSome then doOp .logLine else pure ()
+/-- one `state.log(…)` line.  `ign = false`: `state.log(…)?` — a write error aborts the caller like any other error;
+    `ign = true`: the line is dropped and the operation goes on (a log must never change the course of what it logs) -/
+def logMF (ign : Bool) (cfg : Cfg) : M Unit :=
+  if cfg.log.isSome then (if ign then ignoreErr (doOp .logLine) else doOp .logLine) else pure ()
+
+def logM (cfg : Cfg) : M Unit := logMF ExecFlags.logErrorsIgnored cfg
 
 def rollbackLoop (cfg : Cfg) : List (Path × Path) → Bool → M Bool
   | [], b => pure b
@@ -481,9 +502,14 @@ def contentLoop (cfg : Cfg) (hs : List Hunk) : List Path → M Unit :=
 def adjustLogs (perf : List (Path × Path)) (r : Ren) : Nat :=
   perf.foldl (fun n pr => n + (if pre pr.1 r.path then 1 else 0) + (if pre pr.1 r.newPath then 1 else 0)) 0
 
-def renameLoop (cfg : Cfg) : List (Path × Path) → List Ren → M (List (Path × Path))
-  | perf, [] => pure perf
-  | perf, r :: rs => do
+/-- which pairs `rollback` reverts: the recorded (ORIGINAL from, adjusted to) pairs (`real = false`), or the pairs
+    exactly as they were executed (`real = true`) -/
+def rollbackPairs (real : Bool) (perf exec : List (Path × Path)) : List (Path × Path) := if real then exec else perf
+
+/-- STEP 3.  `perf` = `state.renames_performed` (original from, adjusted to), `exec` = the renames as executed -/
+def renameLoopF (real : Bool) (cfg : Cfg) : List (Path × Path) → List (Path × Path) → List Ren → M (List (Path × Path))
+  | perf, _, [] => pure perf
+  | perf, exec, r :: rs => do
     repeatM (adjustLogs perf r) (logM cfg)
     let af := rebase perf r.path
     let at' := rebase perf r.newPath
@@ -493,16 +519,25 @@ def renameLoop (cfg : Cfg) : List (Path × Path) → List Ren → M (List (Path 
     match res with
     | some e => do
       logM cfg
-      rollbackM cfg perf
+      rollbackM cfg (rollbackPairs real perf exec)
       throw e
     | none => do
       let res2 ← tryCatch (logM cfg)
       match res2 with
       | some e => do
         logM cfg
-        rollbackM cfg (perf ++ [(af, at')])
+        rollbackM cfg (rollbackPairs real (perf ++ [(af, at')]) (exec ++ [(af, at')]))
         throw e
-      | none => renameLoop cfg (perf ++ [(r.path, at')]) rs
+      | none => renameLoopF real cfg (perf ++ [(r.path, at')]) (exec ++ [(af, at')]) rs
+
+def renameLoop (cfg : Cfg) (perf : List (Path × Path)) (rs : List Ren) : M (List (Path × Path)) :=
+  renameLoopF ExecFlags.rollbackRealPairs cfg perf [] rs
+
+/-- the pairs the rename phase executes, as a function of the plan alone -/
+def execOf : List (Path × Path) → List Ren → List (Path × Path)
+  | _, [] => []
+  | perf, r :: rs =>
+    (rebase perf r.path, rebase perf r.newPath) :: execOf (perf ++ [(r.path, rebase perf r.newPath)]) rs
 
 def contentOf (t : Tree) (p : Path) : Option Bytes :=
   match lookup t p with
@@ -565,6 +600,54 @@ def originals (t : Tree) (files : List Path) : List (Path × Bytes) :=
     | some (.file c _) => if Utf8.valid c then some (f, c) else none
     | _ => none)
 
+/-- everything after the renames, in the order the code had up to repo HEAD e472ec7: patches, history entry, stored
+    plan; a failure simply returns (no rollback) -/
+def recordLegacy (cfg : Cfg) (perf : List (Path × Path)) (orig : List (Path × Bytes)) : M Unit := do
+  logM cfg
+  let r ← tryCatch (patchPhase cfg perf orig)
+  match r with
+  | some e => do
+    logM cfg
+    if !cfg.force then throw e else pure ()
+  | none => pure ()
+  logM cfg
+  logM cfg
+  saveHist cfg.entry
+  mkdirs pPlans
+  doOp (.openw (pStored cfg.id) true false)
+  writeAll (pStored cfg.id) blob
+  logM cfg
+  logM cfg
+
+/-- … and with the history entry as the commit point: patches, stored plan (removed again if it cannot be written or
+    if the entry cannot be recorded), history entry LAST; the caller rolls the renames back when this fails -/
+def recordCommit (cfg : Cfg) (perf : List (Path × Path)) (orig : List (Path × Bytes)) : M Unit := do
+  logM cfg
+  let r ← tryCatch (patchPhase cfg perf orig)
+  match r with
+  | some e => do
+    logM cfg
+    if !cfg.force then throw e else pure ()
+  | none => pure ()
+  logM cfg
+  logM cfg
+  mkdirs pPlans
+  let w ← tryCatch (do
+    doOp (.openw (pStored cfg.id) true false)
+    writeAll (pStored cfg.id) blob)
+  match w with
+  | some e => do
+    ignoreErr (doOp (.unlink (pStored cfg.id)))
+    throw e
+  | none => pure ()
+  logM cfg
+  let h ← tryCatch (saveHist cfg.entry)
+  match h with
+  | some e => do
+    ignoreErr (doOp (.unlink (pStored cfg.id)))
+    throw e
+  | none => pure ()
+
 /-- `apply_plan` -/
 def applyPlanM (cfg : Cfg) (plan : Plan) : M Unit := do
   match cfg.log with
@@ -581,21 +664,16 @@ def applyPlanM (cfg : Cfg) (plan : Plan) : M Unit := do
     let orig := originals t files
     contentLoop cfg plan.hunks files
     let perf ← renameLoop cfg [] (sortRens plan.rens)
-    logM cfg
-    let r ← tryCatch (patchPhase cfg perf orig)
-    match r with
-    | some e => do
+    if ExecFlags.historyEntryIsCommitPoint then do
+      let rec' ← tryCatch (recordCommit cfg perf orig)
+      match rec' with
+      | none => pure ()
+      | some e => do
+        logM cfg
+        rollbackM cfg (rollbackPairs ExecFlags.rollbackRealPairs perf (execOf [] (sortRens plan.rens)))
+        throw e
       logM cfg
-      if !cfg.force then throw e else pure ()
-    | none => pure ()
-    logM cfg
-    logM cfg
-    saveHist cfg.entry
-    mkdirs pPlans
-    doOp (.openw (pStored cfg.id) true false)
-    writeAll (pStored cfg.id) blob
-    logM cfg
-    logM cfg
+    else recordLegacy cfg perf orig
 
 -- the commands -------------------------------------------------------------------------------------------
 def entryApply : UInt8 := 65
@@ -613,8 +691,20 @@ def bodyApply (plan : Plan) : M Unit := do
   applyPlanM { log := some (pLogFile idNew), id := idNew, entry := entryApply } plan
   ignoreErr (doOp (.unlink pPlanJson))
 
-def bodyRedo (plan : Plan) : M Unit :=
-  applyPlanM { log := some pApplyLog, id := idRedo, entry := entryRedo } plan
+/-- does the recorded text of a hunk still sit at its recorded offsets (`content.get(start..end) == hunk.content`)? -/
+def hunkFits (t : Tree) (h : Hunk) : Bool :=
+  match lookup t h.file with
+  | some (.file c _) => Utf8.valid c && Edits.sliceStr c h.start h.stop == some h.before
+  | _ => false
+
+/-- `redo_renaming`; `pre = true` (repo commit 3933d7f): every hunk of the stored plan is compared with the files first,
+    and a stale plan is refused with nothing touched -/
+def bodyRedoF (pre : Bool) (plan : Plan) : M Unit := do
+  let t ← getTree
+  if pre && !plan.hunks.all (hunkFits t) then throw .mismatch
+  else applyPlanM { log := some pApplyLog, id := idRedo, entry := entryRedo } plan
+
+def bodyRedo (plan : Plan) : M Unit := bodyRedoF ExecFlags.redoPrevalidate plan
 
 def bodyReplace (plan : Plan) : M Unit := do
   let t ← getTree
@@ -686,12 +776,33 @@ def undoPatches : List (Path × Bytes) → Bool → M Bool
 
 /-- `undo_renaming`; `restore` lists (original path, original content) in the order the patches are applied
     (a `HashMap` in the code: any order) -/
-def bodyUndo (plan : Plan) (restore : List (Path × Bytes)) : M Unit := do
+def bodyUndoSteps (plan : Plan) (restore : List (Path × Bytes)) : M Unit := do
   renameBack (undoDirs plan.rens)
   renameBack (undoFiles plan.rens)
   let bad ← undoPatches restore false
   if bad then throw .patchFailed
   else saveHist entryUndo
+
+/-- `state.renames_performed` of the completed apply, as a function of the plan alone -/
+def perfOf : List (Path × Path) → List Ren → List (Path × Path)
+  | perf, [] => perf
+  | perf, r :: rs => perfOf (perf ++ [(r.path, rebase perf r.newPath)]) rs
+
+/-- where an edited file is now (after the apply that is being undone), falling back to its original path -/
+def nowAt (t : Tree) (plan : Plan) (f : Path) : Path :=
+  let cand := currentPath (perfOf [] (sortRens plan.rens)) f
+  if exists_ t cand then cand else f
+
+/-- `undo_renaming`; `pre = true` (repo commit 657a7be): every reverse patch is checked in memory against the file where
+    it is now, and if one cannot be applied undo refuses with nothing touched (in the model a patch applies iff the file
+    is readable: the diffy round trip is a hypothesis) -/
+def bodyUndoF (pre : Bool) (plan : Plan) (restore : List (Path × Bytes)) : M Unit := do
+  let t ← getTree
+  if pre && !restore.all (fun fc => readable t (nowAt t plan fc.1)) then throw .patchFailed
+  else bodyUndoSteps plan restore
+
+def bodyUndo (plan : Plan) (restore : List (Path × Bytes)) : M Unit :=
+  bodyUndoF ExecFlags.undoPrevalidate plan restore
 
 def cmdUndo (plan : Plan) (restore : List (Path × Bytes)) : M Unit :=
   withLockF ExecFlags.lockUndo (bodyUndo plan restore)
